@@ -211,7 +211,7 @@ def run(ctx) -> Result:
     gks = proj.method(K, "get_kemeny_score")
     for m in K.methods.values():
         res.saw(m)
-    res.rule("R1", "refusal gate precedes scoring; the exception is not swallowed by callers", 3)
+    res.rule("R1", "refusal gate precedes scoring; the exception is not swallowed by callers", 2)
     res.rule("R2", "count vectors = definitional pair statuses for every (candidate, input ranking) of the bound", 1)
     res.rule("R3", "result = vdot(s1, B) + vdot(s2, T) with the scheme's own vectors", 1)
     res.rule("R4", "additivity over rankings; candidates over a superset; empty rankings", 3)
@@ -341,17 +341,6 @@ def run(ctx) -> Result:
                         f"a try block",
               bad_detail=f"{swallow[0][0].short} wraps the scoring call in a try block" if swallow else
               f"only {len(callers)} caller(s) resolved")
-    # the gate is the first thing that can fail: structural must-pass-through
-    first_call = None
-    gate_line = None
-    for n_ in ast.walk(gks.node):
-        if isinstance(n_, ast.Raise) and gate_line is None:
-            gate_line = n_.lineno
-        if isinstance(n_, ast.Call) and isinstance(n_.func, ast.Attribute) and "cost_by_ranking" in n_.func.attr:
-            first_call = n_.lineno if first_call is None else min(first_call, n_.lineno)
-    res.check(gate_line is not None and first_call is not None and gate_line < first_call, "R1",
-              "get_kemeny_score:gate-before-scoring", gks.loc(), ok_detail="the completeness loop precedes the scoring loop",
-              bad_detail=f"gate at line {gate_line}, first per-ranking scoring call at line {first_call}")
     res.assumptions.append("the routine adds per-ranking contributions (checked by R4), so single-ranking datasets decide "
                            "the count vectors; behaviour on universes larger than the bound is argued by the order-type "
                            "nature of the counting (bucket ids are only compared), not checked")
